@@ -40,6 +40,16 @@ DeconvPreT(c, f, o, p) ==
          b  == p + c.pw - (j - 1) * c.sw
      IN IF a \in 1..c.kh /\ b \in 1..c.kw THEN A!Mul(XL(XIdx(c, ch, i, j)), KL(KIdx(c, f, ch, a, b))) ELSE A!Zero])
 
+\* max-pool: the maximum over the window as nested Max terms (row-major over the window, so that the term is a
+\* function of the configuration alone)
+RECURSIVE MaxFold(_)
+MaxFold(q) == IF Len(q) = 1 THEN q[1] ELSE A!Max(q[1], MaxFold(Tail(q)))
+PoolPreT(c, ch, oh, ow) ==
+  MaxFold([t \in 1..(c.kh * c.kw) |->
+     LET k == ((t - 1) \div c.kw) + 1
+         l == ((t - 1) % c.kw) + 1
+     IN XL(XIdx(c, ch, (oh - 1) * c.sh + k, (ow - 1) * c.sw + l))])
+
 \* dense: c.c inputs, c.f outputs; parameters: W row-major, then the bias (if any)
 DensePreT(c, i) ==
   LET s == SumSeqT([j \in 1..c.c |-> A!Mul(KL((i - 1) * c.c + j), XL(j))])
@@ -51,7 +61,8 @@ PreT(c) ==
   [n \in 1..OutCount(c) |->
      CASE c.kind = "dense"  -> DensePreT(c, n)
        [] c.kind = "conv"   -> ConvPreT(c, ((n - 1) \div (o[2] * o[3])) + 1, (((n - 1) % (o[2] * o[3])) \div o[3]) + 1, ((n - 1) % o[3]) + 1)
-       [] c.kind = "deconv" -> DeconvPreT(c, ((n - 1) \div (o[2] * o[3])) + 1, (((n - 1) % (o[2] * o[3])) \div o[3]) + 1, ((n - 1) % o[3]) + 1)]
+       [] c.kind = "deconv" -> DeconvPreT(c, ((n - 1) \div (o[2] * o[3])) + 1, (((n - 1) % (o[2] * o[3])) \div o[3]) + 1, ((n - 1) % o[3]) + 1)
+       [] c.kind = "pool"   -> PoolPreT(c, ((n - 1) \div (o[2] * o[3])) + 1, (((n - 1) % (o[2] * o[3])) \div o[3]) + 1, ((n - 1) % o[3]) + 1)]
 
 \* activation applied to a term
 ActT(act, t) == A!Subst(A!Forward(act), [x |-> t])
@@ -61,7 +72,7 @@ PostT(c, act) == LET p == PreT(c) IN [n \in 1..Len(p) |-> ActT(act, p[n])]
 LossT(c, act) == LET y == PostT(c, act) IN SumSeqT([n \in 1..Len(y) |-> A!Mul(GL(n), y[n])])
 
 NX(c) == IF c.kind = "dense" THEN c.c ELSE c.c * c.h * c.w
-NK(c) == IF c.kind = "dense" THEN c.f * c.c + (IF c.bias THEN c.f ELSE 0) ELSE c.f * c.c * c.kh * c.kw
+NK(c) == IF c.kind = "dense" THEN c.f * c.c + (IF c.bias THEN c.f ELSE 0) ELSE IF c.kind = "pool" THEN 0 ELSE c.f * c.c * c.kh * c.kw
 
 GradX(c, act) == LET l == LossT(c, act) IN [i \in 1..NX(c) |-> A!D(l, "x" \o ToString(i))]
 GradK(c, act) == LET l == LossT(c, act) IN [j \in 1..NK(c) |-> A!D(l, "k" \o ToString(j))]
